@@ -640,12 +640,15 @@ def match_len_ignores_empty_key(d):
 MATCHERS = {"len_ignores_empty_key": match_len_ignores_empty_key}
 
 RULE = (
-    "one case = one seeded history of TrieDict operations by 1-4 writer clients, readers and live "
-    "iterator tasks interleaved by the schedule PRNG, with faults landing inside assignments; after "
-    "every mutating event all keys of length 0..depth+1 are queried through get/[]/"
-    "longest_matching_prefix_value and len/items/prefixes/values/__iter__ are compared with a dict "
-    "model. distinct_nontrivial = number of distinct abstract model states (hash of the sorted "
-    "key->value map) reached that hold at least one entry."
+    "one case = one seeded history of TrieDict operations by 1-4 writer clients, readers and live iterator tasks "
+    "interleaved by the schedule PRNG on one or two independent TrieDict instances, with faults landing inside "
+    "assignments (key iterable raising after k tokens, unhashable token at position k, each possibly retried at once) "
+    "and traversals cancelled at any step; shapes: small (2 tokens, depth 1-3), mixed pools (incl. empty-string and "
+    "non-string tokens), wide (8-12 tokens), deep (keys up to 6 tokens). After mutating events the keys of length "
+    "0..depth+1 are queried through get/[]/longest_matching_prefix_value and len/items/prefixes/values/__iter__ are "
+    "compared with a dict model (how much of this is done after each mutation is itself part of the per-run "
+    "configuration; always completely at run end and after a cancellation). distinct_nontrivial = number of distinct "
+    "abstract model states (hash of the sorted key->value map) reached that hold at least one entry."
 )
 ASSUMPTIONS = [
     "operations are atomic: TrieDict documents no thread safety, so pre-emption inside a call is not simulated",
